@@ -53,6 +53,7 @@ type Spec struct {
 	Subs        []FieldSpec
 	NoNodeField map[int]bool // services that do not expose `node` (wild profile)
 	Enums       []string     // shared enum E0 ... (values A,B,C) declared in every service that uses it
+	Inputs      bool         // input type In0 { f0: Int, tags: [String!], sub: In0 } may be used by arguments
 }
 
 func (s *Spec) Type(name string) *TypeSpec {
@@ -171,6 +172,36 @@ func (s *Spec) serviceTypes(i int) (objs map[string]bool, abstracts map[string]b
 	return
 }
 
+// usesInput: does service i declare an argument of the input type
+func (s *Spec) usesInput(i int) bool {
+	has := func(f FieldSpec) bool {
+		for _, a := range f.Args {
+			if NamedType(a.Type) == "In0" {
+				return true
+			}
+		}
+		return false
+	}
+	for _, t := range s.Types {
+		for _, f := range t.Fields {
+			if (f.Owner == i || !t.Node) && has(f) {
+				objs, _, _ := s.serviceTypes(i)
+				if objs[t.Name] {
+					return true
+				}
+			}
+		}
+	}
+	for _, fs := range [][]FieldSpec{s.Query, s.Mutation, s.Subs} {
+		for _, f := range fs {
+			if f.Owner == i && has(f) {
+				return true
+			}
+		}
+	}
+	return false
+}
+
 func printField(b *strings.Builder, f FieldSpec) {
 	b.WriteString("  " + f.Name)
 	if len(f.Args) > 0 {
@@ -252,6 +283,9 @@ func (s *Spec) SDL(i int) string {
 			b.WriteString("}\n")
 		}
 	}
+	if s.usesInput(i) {
+		b.WriteString("input In0 {\n  f0: Int\n  tags: [String!]\n  sub: In0\n}\n")
+	}
 	enames := make([]string, 0, len(enums))
 	for n := range enums {
 		enames = append(enames, n)
@@ -325,6 +359,7 @@ func Generate(r *hx.Rand, o GenOptions) *Spec {
 	if o.Args && r.Chance(1, 2) {
 		s.Enums = []string{"E0"}
 	}
+	s.Inputs = o.Args && r.Chance(1, 2)
 	for v := 0; v < nVal; v++ {
 		s.Types = append(s.Types, &TypeSpec{Name: fmt.Sprintf("V%d", v)})
 	}
@@ -356,6 +391,9 @@ func Generate(r *hx.Rand, o GenOptions) *Spec {
 		var as []ArgSpec
 		for k := 0; k < r.Range(1, 2); k++ {
 			ty := hx.Pick(r, []string{"Int", "String", "Boolean", "[Int!]", "Int!"})
+			if s.Inputs && r.Chance(1, 4) {
+				ty = "In0"
+			}
 			if len(s.Enums) > 0 && r.Chance(1, 4) {
 				ty = "E0"
 			}
